@@ -14,9 +14,13 @@ for n in names:
         if cid not in checks: checks.append(cid)
     own = meta['breaks_property']
     if own not in checks: checks.insert(0, own)
-    ap = subprocess.run(['git', '-C', '/repo', 'apply', '--3way', f'{root}/{n}/patch.diff'], capture_output=True, text=True)
+    ap = subprocess.run(['git', '-C', '/repo', 'apply', f'{root}/{n}/patch.diff'], capture_output=True, text=True)
     if ap.returncode != 0:
-        ap = subprocess.run(['patch', '-p1', '-d', '/repo', '--fuzz=3', '-i', f'{root}/{n}/patch.diff'], capture_output=True, text=True)
+        # the tree moved on (a later fix: commit): retry with fuzz and, when that works, refresh the stored patch
+        ap = subprocess.run(['patch', '-p1', '-d', '/repo', '--fuzz=3', '--no-backup-if-mismatch', '-i', f'{root}/{n}/patch.diff'], capture_output=True, text=True)
+        if ap.returncode == 0:
+            d = subprocess.run(['git', '-C', '/repo', 'diff'], capture_output=True, text=True).stdout
+            open(f'{root}/{n}/patch.diff', 'w').write(d)
     res = []
     if ap.returncode != 0:
         res.append(('-', 'patch no longer applies', 0))
@@ -28,8 +32,8 @@ for n in names:
             m = re.search(r'clause=(\S+)', p.stdout)
             verdict = {0: 'not reported', 1: 'VIOLATION ' + (m.group(1) if m else '?'), 2: 'INFRA'}.get(p.returncode, str(p.returncode))
             res.append((cid, verdict, dt))
-    subprocess.run(['git', '-C', '/repo', 'checkout', '-q', '--', '.'])
-    subprocess.run(['git', '-C', '/repo', 'clean', '-fdq', '-e', 'nothing'], capture_output=True)
+    subprocess.run(['git', '-C', '/repo', 'reset', '-q', '--hard', 'HEAD'])
+    subprocess.run(['git', '-C', '/repo', 'clean', '-fdq'], capture_output=True)
     meta['last_run'] = [{'check': c + ' quick', 'result': v, 'seconds': round(dt, 1)} for c, v, dt in res]
     json.dump(meta, open(f'{root}/{n}/meta.json', 'w'), indent=1)
     rows.append((n, meta, res))
